@@ -686,10 +686,26 @@ func moveSplits(fromOr, toOr *OutRec) {
 
 func getCleanPath(op *OutPt) Path64 {
 	res := make(Path64, 0)
+	// repeated points must not hide a corner, so a point is compared with
+	// the nearest DIFFERENT points on either side
+	nextDiff := func(o *OutPt) *OutPt {
+		n := o.next
+		for n != o && n.pt == o.pt {
+			n = n.next
+		}
+		return n
+	}
+	prevDiff := func(o *OutPt) *OutPt {
+		p := o.prev
+		for p != o && p.pt == o.pt {
+			p = p.prev
+		}
+		return p
+	}
 	op2 := op
 	for op2.next != op &&
-		((op2.pt.X == op2.next.pt.X && op2.pt.X == op2.prev.pt.X) ||
-			(op2.pt.Y == op2.next.pt.Y && op2.pt.Y == op2.prev.pt.Y)) {
+		((op2.pt.X == nextDiff(op2).pt.X && op2.pt.X == prevDiff(op2).pt.X) ||
+			(op2.pt.Y == nextDiff(op2).pt.Y && op2.pt.Y == prevDiff(op2).pt.Y)) {
 		op2 = op2.next
 	}
 
@@ -699,12 +715,17 @@ func getCleanPath(op *OutPt) Path64 {
 	var vt verifTicker
 	for op2 != op {
 		vt.tick("getCleanPath")
-		if !((op2.pt.X == op2.next.pt.X && op2.pt.X == prevOp.pt.X) ||
-			(op2.pt.Y == op2.next.pt.Y && op2.pt.Y == prevOp.pt.Y)) {
+		n := nextDiff(op2)
+		if op2.pt != prevOp.pt &&
+			!((op2.pt.X == n.pt.X && op2.pt.X == prevOp.pt.X) ||
+				(op2.pt.Y == n.pt.Y && op2.pt.Y == prevOp.pt.Y)) {
 			res = append(res, op2.pt)
 			prevOp = op2
 		}
 		op2 = op2.next
+	}
+	if len(res) > 1 && res[len(res)-1] == res[0] {
+		res = res[:len(res)-1]
 	}
 	return res
 }
